@@ -2,12 +2,17 @@
 (* C18 - batch validation of recorded executions of the real Gateway + scripted controller
    (checks/c18.py).  One item = one scenario run:
 
-     [ev |-> << [k, z, a, b, c, s, p], ... >>]      every event has all seven fields
+     [ev |-> << [k, z, a, b, c, s, p], ... >>,      every event has all seven fields
+      sh |-> << <<s0, .., s7>> per zone >>]        s_c = << the positions at which the fragment of version c is
+                                                   byte-identical with that of version c-1 >>, measured on the real
+                                                   fragments (a slot value is the earliest version with these bytes
+                                                   there: SchedXferCore, Rep)
        k  kind      z  zone (1..3, 0 if none)      a,b,c  integers      s  string
        p  projection of the real objects when the event was logged:
           [lock |-> 0..3, zs |-> << [gver, sver, full, pset] per zone >>]
 
-   kinds  start  z a=tid b=force c=wr s=op     a transfer is called (get/set; tid >= 100: follow-up)
+   kinds  start  z a=tid b=force c=wr s=op     a transfer is called (get/set; tid >= 100: follow-up); set: b = the number
+                                               of fragments the schedule written makes
           xq     z a=frag/put number s=ver|frag|put   the transfer starts an exchange
           xr     z s=ok|fail  ver: a=counter   frag: a=version b=k c=n    the exchange returns
           locked z                             _obtain_lock returned after having waited
@@ -36,6 +41,11 @@ vars == <<tid, l, SF, ST, driftF, driftT, cv, acc, armed, since, cfresh, stale0,
 
 ZS == {1, 2, 3}
 Ev(t) == Traces[t].ev
+\* codec facts of zone z in this item
+ShOf(z) == IF z \in 1..Len(Traces[tid].sh)
+           THEN LET q == Traces[tid].sh[z] IN [c \in 0..(Len(q) - 1) |-> {q[c + 1][i] : i \in 1..Len(q[c + 1])}]
+           ELSE NoShare
+CodOf(z) == [zlib |-> TRUE, sh |-> ShOf(z)]
 
 Init == /\ tid \in 1..Len(Traces) /\ l = 1
         /\ SF = GInit(ZS) /\ ST = GInit(ZS) /\ driftF = FALSE /\ driftT = FALSE
@@ -52,19 +62,19 @@ Init == /\ tid \in 1..Len(Traces) /\ l = 1
 Apply(S, e, fix) ==
     LET z == e.z IN
     CASE e.k \in {"start", "fu"} -> IF e.s = "get" THEN StartGet(S, z, e.b = 1, e.a, fix)
-                                    ELSE StartSet(S, z, e.c, e.a, fix)
+                                    ELSE StartSetN(S, z, e.c, IF e.b > 0 THEN e.b ELSE NFrags(e.c), e.a, fix)
       [] e.k = "xr" ->
             IF ~(Z(S, z).pc \in ExchPcs) THEN S
             ELSE IF e.s # "ok" THEN Fail(S, z, "err", fix)
             \* e.q = the kind of exchange the code actually made; when it is not the one the shadow model is
             \* waiting for, the shadow stays where it is (reported as drift by Fits, never a crash of the judge)
-            ELSE IF Z(S, z).pc = "w_frag" THEN (IF e.q = "frag" THEN OnFrag(S, z, e.a, e.b, e.c, TRUE, fix) ELSE S)
+            ELSE IF Z(S, z).pc = "w_frag" THEN (IF e.q = "frag" THEN OnFrag(S, z, e.a, e.b, e.c, CodOf(z), fix) ELSE S)
             ELSE IF Z(S, z).pc = "w_put" THEN (IF e.q = "put" THEN OnPutAck(S, z) ELSE S)
             ELSE (IF e.q = "ver" THEN OnVer(S, z, e.a, fix) ELSE S)
       [] e.k = "locked" -> IF Z(S, z).pc = "w_lock" THEN TryLock(S, z, fix) ELSE S
       [] e.k = "end" -> IF Active(S, z) THEN Fail(S, z, e.s, fix) ELSE S
-      [] e.k = "hm" -> IF e.s = "ack" THEN HeardAck(S, z, e.b, e.c, TRUE, fix)
-                       ELSE Heard(S, z, e.a, e.b, e.c, TRUE)
+      [] e.k = "hm" -> IF e.s = "ack" THEN HeardAck(S, z, e.b, e.c, CodOf(z), fix)
+                       ELSE Heard(S, z, e.a, e.b, e.c, CodOf(z))
       [] e.k = "heard6" -> Heard6(S, e.a)
       [] e.k = "age" -> Age(S)
       [] OTHER -> S
@@ -112,8 +122,12 @@ Clauses(e) ==
                        \* detail: the transfer read a counter / went by a cached one inside the freshness window / went
                        \* by one older than the window ("expired": no counter was read during the transfer, and the schedule is
                        \* not the one the controller has held since the call)
+                       \* "first-fragment-unchanged": what it returned is an earlier version whose first fragment has the
+                       \* same bytes as that of the controller's schedule (whichever counter it went by)
                        ELSE << <<l, "C18a_stale", "get",
-                                 IF armed[z] THEN "read" ELSE IF stale0[z] THEN "expired" ELSE "cached", "">> >>
+                                 IF e.b >= 0 /\ e.b < cv[z] /\ Rep(ShOf(z), cv[z], 1) = Rep(ShOf(z), e.b, 1)
+                                 THEN "first-fragment-unchanged"
+                                 ELSE IF armed[z] THEN "read" ELSE IF stale0[z] THEN "expired" ELSE "cached", "">> >>
                   ELSE IF e.b = info[z].wr THEN <<>>
                        ELSE << <<l, "C18a_set_result", "set", "", "">> >>)
             \o
